@@ -96,6 +96,9 @@ _PICKLE_COL_KINDS = ['str', 'int', 'auto', 'hier2', 'negint', 'mixed', 'IndexDat
 # --------------------------------------------------------------------------------------
 # generation
 
+TECHNIQUE = 'runtime monitoring: round-trip oracle (export then import must reproduce labels, cells at value strength and names) for delimited text, pickle, records / pairs / items constructors and structured arrays'
+
+
 def _delim_case(rng):
     spec, _ = T.gen_table(rng)
     lays = F.layouts(spec.dtypes, limit=24)
